@@ -240,6 +240,10 @@ func (g *treeGen) mutate(n *node, depth int) {
 	}
 	switch n.Tag {
 	case "SegmentTimeline":
+		if g.stlattr && rng.Intn(2) == 0 {
+			// an attribute of the SegmentTimeline element itself appears or changes
+			n.setAttr(g.pick("ext", "aNew"), g.id("w"))
+		}
 		g.mutateS(n)
 		return
 	}
